@@ -55,7 +55,7 @@ func (hs *hasher) hash(n *pnode) felt.Felt {
 	} else {
 		out = hs.h(&n.A, &n.B)
 	}
-	if len(hs.memo) > 1<<16 {
+	if len(hs.memo) > 1<<12 {
 		hs.memo = map[nodeKey]felt.Felt{}
 	}
 	hs.memo[k] = out
